@@ -40,6 +40,13 @@ impl Arena {
     /// `pages` data pages between two guard areas of 16 pages each (so that
     /// strides of up to 64 KiB past the end still land in a guard).
     pub fn new(pages: usize) -> Arena {
+        Self::new_flags(pages, 0)
+    }
+    /// Like `new`, but mapped below 2 GiB so that its addresses fit 32-bit fields.
+    pub fn new_low(pages: usize) -> Arena {
+        Self::new_flags(pages, libc::MAP_32BIT)
+    }
+    fn new_flags(pages: usize, extra: libc::c_int) -> Arena {
         const G: usize = 16 * PAGE;
         let len = pages * PAGE;
         let total = len + 2 * G;
@@ -48,7 +55,7 @@ impl Arena {
                 std::ptr::null_mut(),
                 total,
                 libc::PROT_NONE,
-                libc::MAP_PRIVATE | libc::MAP_ANONYMOUS,
+                libc::MAP_PRIVATE | libc::MAP_ANONYMOUS | extra,
                 -1,
                 0,
             );
